@@ -184,6 +184,18 @@ def expected_op(t, regs, op):
         return rep(len(items)) + "|" + rep(max(len(items) - 1, 0)), None
     if name == "ar":
         return "%d,%d" % (len(nk), len(k)), None
+    if name in ("itn", "its"):
+        items = nk if name == "itn" else k
+        script = [int(x) for x in parts[2].split(".") if x] if len(parts) > 2 else []
+        idx, out = 0, []
+        for kk in script:
+            idx += kk
+            if idx < len(items):
+                out.append(items[idx])
+                idx += 1
+            else:
+                idx = len(items)
+        return lst(out)
     if name == "tao":
         off = int(parts[2])
         s, e = t.rng(p)
